@@ -175,6 +175,119 @@ def guards_of(prog, body, bb, tb=None):
     return out
 
 
+def return_sources(body, tb, max_depth=6):
+    """(value term, block, line) of every value a function can return: the assignments to _0, looked through copies, `(L as V).f`
+    projections and aggregates, where some local on the way is assembled at several places (e.g. the spliced result of a helper returning
+    Option<T>): each `L = V(x)` contributes x, located at the block where the choice is made (so guards can be computed there).  Values
+    reached through single-definition temporaries keep the block of their use."""
+    out = []
+    cache = {}
+
+    def defs_of(l):
+        if l not in cache:
+            res = []
+            for bb, blk in enumerate(body.blocks):
+                if blk.get("cleanup"):
+                    continue
+                for s in blk["stmts"]:
+                    if s["k"] == "assign" and s["place"] == {"l": l, "p": []}:
+                        res.append((bb, s))
+                t = blk["term"]
+                if t["k"] == "call" and t.get("dest") == {"l": l, "p": []}:
+                    res.append((bb, t))
+            cache[l] = res
+        return cache[l]
+
+    def leads_to_choice(l, depth=0):
+        """Does following copies / projections from local l reach a local with several definitions?"""
+        ds = defs_of(l)
+        if len(ds) > 1:
+            return True
+        if depth > max_depth or not ds or ds[0][1].get("k") == "call":
+            return False
+        rv = ds[0][1]["rv"]
+        if "use" in rv:
+            pl = rv["use"].get("move") or rv["use"].get("copy")
+            return pl is not None and pl["l"] > body.arg_count and leads_to_choice(pl["l"], depth + 1)
+        return False
+
+    def emit(term, bb, line, origin):
+        ob, ol = origin if origin is not None else (bb, line)
+        out.append((term, ob, ol))
+
+    def expand(l, proj, depth, origin):
+        ds = defs_of(l)
+        multi = len(ds) > 1
+        for bb, s in ds:
+            org = (bb, s.get("line")) if (multi or origin is None) else origin
+            if s.get("k") == "call":
+                emit(tb.call_term(s) if not proj else ("opaque", "projection of a call result"), bb, s.get("line"), org)
+                continue
+            rv = s["rv"]
+            pl = (rv["use"].get("move") or rv["use"].get("copy")) if "use" in rv else None
+            if pl is not None and pl["l"] > body.arg_count and depth < max_depth and (proj or pl["p"] or multi or leads_to_choice(pl["l"])) \
+                    and all(isinstance(e, dict) and ("downcast" in e or "f" in e) for e in pl["p"]):
+                if leads_to_choice(pl["l"]) or proj or pl["p"]:
+                    expand(pl["l"], list(pl["p"]) + proj, depth + 1, org)
+                    continue
+            if "agg" in rv and len(proj) >= 2 and isinstance(proj[0], dict) and "downcast" in proj[0] and isinstance(proj[1], dict) and "f" in proj[1]:
+                if rv["agg"].get("variant") == proj[0]["downcast"] or (rv["agg"].get("vidx") is not None and rv["agg"].get("vidx") == proj[0].get("v")):
+                    idx = proj[1].get("i", 0)
+                    if idx < len(rv["ops"]):
+                        op = rv["ops"][idx]
+                        opl = op.get("move") or op.get("copy")
+                        if opl is not None and opl["l"] > body.arg_count and depth < max_depth and (proj[2:] or leads_to_choice(opl["l"])):
+                            expand(opl["l"], list(opl["p"]) + proj[2:], depth + 1, org)
+                        elif not proj[2:]:
+                            emit(tb.operand(op), bb, s.get("line"), org)
+                continue          # another variant contributes nothing to this projection
+            if not proj:
+                emit(tb.rvalue(rv), bb, s.get("line"), org)
+            else:
+                emit(("opaque", "unresolved projection"), bb, s.get("line"), org)
+    expand(0, [], 0, None)
+    seen = set()
+    uniq = []
+    for term, bb, line in out:
+        if (term, bb) not in seen:
+            seen.add((term, bb))
+            uniq.append((term, bb, line))
+    return uniq
+
+
+def path_guards(prog, body, bb, max_paths=4000):
+    """Path-sensitive companion of guards_of: the (condition, truth) pairs that hold on EVERY feasible acyclic path from the entry to block
+    `bb` (symbolic paths; a path that decides the same pure condition twice differently is infeasible and dropped; `!c` is reported as c with
+    the opposite truth).  Finds guards that dominance cannot see, e.g. `if a && !b {..} else if a {HERE}` gives b = True at HERE."""
+    from symex import SymEx, TooManyPaths
+    dead = set(range(len(body.blocks))) - {x for x in range(len(body.blocks)) if bb in cfg.reachable(body, [x]) or x == bb}
+    try:
+        paths = SymEx(prog, body, inline_depth=0, max_paths=max_paths, stop_at={bb} | dead).run()
+    except TooManyPaths:
+        return []
+    common = None
+    for p in paths:
+        if not p.blocks or p.blocks[-1] != bb:
+            continue
+        g = set()
+        for c, tk in p.conds:
+            if isinstance(tk, tuple):
+                truth = (0 in tk[1]) if tk[1] in ((0,), (1,)) else tk
+                if tk[1] == (1,):
+                    truth = False
+            else:
+                truth = tk
+            neg = False
+            while c[0] == "un" and c[1] == "Not":
+                c = c[2]
+                neg = not neg
+            if c[0] != "discr" and isinstance(truth, (bool, int)) and truth in (0, 1, True, False):
+                truth = bool(truth) != neg
+            g.add((c, truth))
+        common = g if common is None else (common & g)
+    return sorted(common or [], key=repr)
+
+
 def fmt_text(op_json):
     """Literal text of a format template operand: either a plain &str constant or the byte-coded template of
     core::fmt::Arguments::new (length-prefixed literal pieces interleaved with placeholder opcodes >= 0x80)."""
